@@ -358,12 +358,16 @@ def failing_decls(out: str):
 # --------------------------------------------------------------------------- findings
 
 def load_findings(pid):
-    p = VERIF / "known_findings.json"
-    if not p.exists():
-        return {"known": [], "fixed": []}
-    data = json.loads(p.read_text())
-    return {"known": [f for f in data.get("known", []) if f["property"] == pid],
-            "fixed": [f for f in data.get("fixed", []) if f["property"] == pid]}
+    """known_findings.json plus the per-cluster fragments findings.d/*.json (same format)"""
+    known, fixed = [], []
+    files = [VERIF / "known_findings.json"] + sorted((VERIF / "findings.d").glob("*.json"))
+    for p in files:
+        if not p.exists():
+            continue
+        data = json.loads(p.read_text())
+        known += [f for f in data.get("known", []) if f["property"] == pid]
+        fixed += [f for f in data.get("fixed", []) if f["property"] == pid]
+    return {"known": known, "fixed": fixed}
 
 
 def finding_matches(f, v) -> bool:
